@@ -1,65 +1,37 @@
+//! C18 — Formatting is idempotent. Bounded-exhaustive: corpus + item grammar + every single
+//! comment insertion / whitespace replacement (+ ordered pairs), 5 configurations.
+//! The space, the oracle and the classifier live in `vh_text::fmtgen`.
 use vh_text::fmtgen::*;
 
 fn main() {
     let a = vhcore::parse_args();
     vhcore::silence_panics();
     let code = match a.cmd.as_str() {
-        "probe" => probe(&a),
+        "check" => run_check(&a, "fmt(x) Ok => fmt(fmt(x)) Ok and == fmt(x); no panic", c18_check),
+        "replay" => replay(&a, c18_check),
+        // debugging aids: `c18 fmt <file> [config]`, `c18 case <file> [config]`
         "fmt" => {
             let src = std::fs::read_to_string(&a.rest[0]).unwrap();
             let cfg = config_by_name(a.rest.get(1).map(|s| s.as_str()).unwrap_or("default")).unwrap();
             match fmt(&src, &cfg) {
-                FmtOut::Ok(s) => { print!("{s}"); 0 }
-                o => { println!("{o:?}"); 1 }
+                FmtOut::Ok(s) => {
+                    print!("{s}");
+                    0
+                }
+                o => {
+                    println!("{o:?}");
+                    1
+                }
             }
         }
-        _ => vhcore::machinery_failure("usage"),
+        "case" => {
+            let src = std::fs::read_to_string(&a.rest[0]).unwrap();
+            let cfg = config_by_name(a.rest.get(1).map(|s| s.as_str()).unwrap_or("default")).unwrap();
+            let o = c18_check(&src, &cfg);
+            println!("{o:#?}");
+            0
+        }
+        _ => vhcore::machinery_failure("usage: c18 check C18 --tier quick|thorough | replay C18 <file>"),
     };
     std::process::exit(code);
-}
-
-fn probe(a: &vhcore::Args) -> i32 {
-    let files = vhcore::corpus_sw_files();
-    let cfgs = configs();
-    let t = std::time::Instant::now();
-    let res = vhcore::par_map(&files, a.jobs, |p| {
-        let Ok(src) = std::fs::read_to_string(p) else { return (0usize, vec![]) };
-        let mut out = vec![];
-        let ntok = lex(&src).map(|l| l.n_tokens()).unwrap_or(0);
-        for (name, c) in &cfgs {
-            match fmt(&src, c) {
-                FmtOut::Ok(f1) => match fmt(&f1, c) {
-                    FmtOut::Ok(f2) => {
-                        if f1 != f2 {
-                            let l1: Vec<&str> = f1.lines().collect();
-                            let l2: Vec<&str> = f2.lines().collect();
-                            let mut i = 0;
-                            while i < l1.len() && i < l2.len() && l1[i] == l2[i] { i += 1; }
-                            let lo = i.saturating_sub(2);
-                            out.push(format!("NONIDEM {name} {}\n--- pass1\n{}\n--- pass2\n{}", p.display(), l1[lo..(i+4).min(l1.len())].join("\n"), l2[lo..(i+4).min(l2.len())].join("\n")));
-                        }
-                    }
-                    o => out.push(format!("SECOND {name} {} {:?}", p.display(), o)),
-                },
-                FmtOut::Err(_) => out.push(format!("ERR {name} {}", p.display())),
-                FmtOut::Panic(m) => out.push(format!("PANIC {name} {} {m}", p.display())),
-            }
-        }
-        (ntok, out)
-    });
-    let mut small = 0;
-    let mut small30 = 0;
-    for (n, o) in &res {
-        if *n <= 120 && *n > 0 {
-            small += 1;
-        }
-        if *n <= 30 && *n > 0 {
-            small30 += 1;
-        }
-        for l in o {
-            println!("{l}");
-        }
-    }
-    println!("files={} small120={small} small30={small30} wall={:?}", files.len(), t.elapsed());
-    0
 }
